@@ -260,6 +260,7 @@ def one_case(ctx, table, spec, rng_bits):
                     sq = ctx.km.call("step_quiet", table, c, e, smlib.bits_arg(bits))
                     if ([(k.decode(), n.decode(), ev.decode()) for k, n, ev in sq[0]], sq[1].decode(), int(sq[2])) != want:
                         ctx.tie_broken("Spec step_rows_quiet vs the Python reading of the property", {"table": table, "state": c, "event": e, "bits": bits})
+    smlib.decl_correspondence(ctx, "cs", files, table, spec)
     r = check_decls(table, spec, files)
     if r:
         return r, "cs-declarations"
@@ -284,6 +285,7 @@ def run(ctx):
         ctx.count("corpus")
         if not replay(ctx, data):
             ctx.violation("corpus case %s fails" % os.path.basename(p), dict(data, finding_key=data.get("finding_key", "corpus:" + os.path.basename(p))))
+    smlib.ttmodel_batch(ctx, ctx.budget(400, 5000))   # the table model this property's model is built on
     n = ctx.budget(2500, 30000)
     for i in range(n):
         table, spec, bits = gen_case(ctx.rng, i)
